@@ -16,6 +16,7 @@ import (
 	"strings"
 	"sync"
 	"sync/atomic"
+	"syscall"
 	"testing"
 	"time"
 
@@ -373,8 +374,18 @@ func (s *Suite) recordViolation(v Violation) {
 
 type watchSlot struct {
 	start time.Time
+	cpu   time.Duration // CPU time of the process when the case started
 	prop  string
 	js    func() []byte
+}
+
+// cpuTime is the CPU time (user + system) the process has used so far.
+func cpuTime() time.Duration {
+	var ru syscall.Rusage
+	if err := syscall.Getrusage(syscall.RUSAGE_SELF, &ru); err != nil {
+		return 0
+	}
+	return time.Duration(ru.Utime.Nano() + ru.Stime.Nano())
 }
 
 var (
@@ -389,7 +400,12 @@ func (s *Suite) watch(prop string, js func() []byte) {
 			for {
 				time.Sleep(500 * time.Millisecond)
 				w := watchCur.Load()
-				if w != nil && time.Since(w.start) > WatchLimit {
+				// a case is taken for a hang when it has not returned after WatchLimit of wall clock
+				// time AND the process has burnt that much CPU since (a loop that spins), or after ten
+				// times the limit whatever the CPU (a wait for something that never comes). Wall clock
+				// alone is not enough: with the thorough tier's processes and other jobs on the same
+				// cores a case of a few seconds took more than 30 s twice, and was no hang.
+				if w != nil && time.Since(w.start) > WatchLimit && (cpuTime()-w.cpu > WatchLimit || time.Since(w.start) > 10*WatchLimit) {
 					// the case did not return: record it as a hang and stop the process
 					// (the goroutine that is stuck cannot be cancelled)
 					s.recordViolation(Violation{Prop: w.prop, Case: w.js(), Discs: []Disc{{Kind: "hang", Where: "watchdog",
@@ -400,7 +416,7 @@ func (s *Suite) watch(prop string, js func() []byte) {
 			}
 		}()
 	})
-	watchCur.Store(&watchSlot{start: time.Now(), prop: prop, js: js})
+	watchCur.Store(&watchSlot{start: time.Now(), cpu: cpuTime(), prop: prop, js: js})
 	if journalPath != "" {
 		// journal mode (the driver runs a worker again this way after the process died): the
 		// case about to run is on disk before it runs
@@ -423,7 +439,7 @@ func unwatch() { watchCur.Store(nil) }
 // measures wall clock time, and a busy machine stretches a CPU bound case).
 func Extend(d time.Duration) {
 	if w := watchCur.Load(); w != nil {
-		watchCur.Store(&watchSlot{start: w.start.Add(d), prop: w.prop, js: w.js})
+		watchCur.Store(&watchSlot{start: w.start.Add(d), cpu: w.cpu, prop: w.prop, js: w.js})
 	}
 }
 
